@@ -212,14 +212,21 @@ macro_rules! impl_vf {
             fn cmp_f64(st: usize, a: Self, t: f64, outs: &mut Outs) {
                 $crate::cmp14!(st, outs, a, t);
             }
+            #[cfg(feature = "f16")]
             fn cmp_f16(st: usize, a: Self, bits: u16, outs: &mut Outs) {
                 let t = half::f16::from_bits(bits);
                 $crate::cmp14!(st, outs, a, t);
             }
+            #[cfg(feature = "f16")]
             fn cmp_bf16(st: usize, a: Self, bits: u16, outs: &mut Outs) {
                 let t = half::bf16::from_bits(bits);
                 $crate::cmp14!(st, outs, a, t);
             }
+            // built without the library's f16 feature: no outputs, the case is counted as skipped
+            #[cfg(not(feature = "f16"))]
+            fn cmp_f16(_st: usize, _a: Self, _bits: u16, _outs: &mut Outs) {}
+            #[cfg(not(feature = "f16"))]
+            fn cmp_bf16(_st: usize, _a: Self, _bits: u16, _outs: &mut Outs) {}
             fn lossy_f32(a: Self) -> f32 {
                 <f32 as substrate_fixed::traits::LossyFrom<Self>>::lossy_from(a)
             }
